@@ -12,8 +12,12 @@ class Missing(Exception):
     pass
 
 
+VERIF = os.path.dirname(os.path.dirname(os.path.abspath(__file__)))
+
+
 def module_ast(relpath):
-    p = os.path.join(REPO, relpath)
+    # "verif/<path>" names a harness in /verif (sidecar code that calls the real functions); anything else is /repo
+    p = os.path.join(VERIF, relpath[6:]) if relpath.startswith("verif/") else os.path.join(REPO, relpath)
     if p not in _mod_cache:
         if not os.path.exists(p):
             raise Missing("source file %s not found" % relpath)
